@@ -124,6 +124,18 @@ func outputFor(kind string, seq uint64) (result, output string) {
 	case "valid":
 		return `{"code":200,"message":""}`, fmt.Sprintf(`{"header":{},"body":{"n":%d}}`, seq)
 	case "bad":
+		// valid JSON that the output schema refuses, in several shapes: no header, a header spelled with a
+		// capital, a body that is null, a header that is not an object, a document that is not an object
+		switch seq % 5 {
+		case 1:
+			return `{"code":200,"message":""}`, fmt.Sprintf(`{"Header":{},"Body":{"n":%d}}`, seq)
+		case 2:
+			return `{"code":200,"message":""}`, fmt.Sprintf(`{"header":{"n":%d},"body":null}`, seq)
+		case 3:
+			return `{"code":200,"message":""}`, fmt.Sprintf(`{"header":"h%d","body":{}}`, seq)
+		case 4:
+			return `{"code":200,"message":""}`, fmt.Sprintf(`[{"header":{},"body":{"n":%d}}]`, seq)
+		}
 		return `{"code":200,"message":""}`, fmt.Sprintf(`{"body":{"n":%d}}`, seq)
 	}
 	return `{"code":400,"message":"no"}`, ""
